@@ -188,6 +188,8 @@ def run_property(modname, tier, seed, nproc=None):
                         bump(d, kk, vv)
             if len(agg["fps"]) < MAX_FPS_TOTAL:
                 agg["fps"] |= r["fps"]
+            if "state_keys" in r:
+                agg.setdefault("state_keys", set()).update(r["state_keys"])
             agg["violations"].extend(r["violations"])
             if len(agg["samples"]) < 200:
                 agg["samples"].extend(r["samples"][:2])
@@ -235,6 +237,8 @@ def run_property(modname, tier, seed, nproc=None):
     samples = list(agg["samples"])
     rs.shuffle(samples)
     samples = samples[:6]
+    if agg.get("state_keys"):
+        agg["states"] = len(agg["state_keys"])      # distinct canonical states across all workers
     cov = {
         "states": agg["states"],
         "transitions": agg["transitions"],
